@@ -14,7 +14,7 @@ pub enum AfterHead {
 pub fn write_head_ample(f: &mut Flow<(), SendRequest>) -> Result<Vec<u8>, String> {
     let mut out = vec![0u8; 1 << 18];
     let mut head = Vec::new();
-    for _ in 0..4 {
+    for _ in 0..200 {
         if f.can_proceed() {
             break;
         }
@@ -23,6 +23,22 @@ pub fn write_head_ample(f: &mut Flow<(), SendRequest>) -> Result<Vec<u8>, String
     }
     if !f.can_proceed() {
         return Err("head incomplete after ample writes".into());
+    }
+    Ok(head)
+}
+
+/// Offer `out` until the head is complete (a call need not emit every line that would fit); returns the bytes written.
+pub fn write_head_until_ready(f: &mut Flow<(), SendRequest>, out: &mut [u8]) -> Result<Vec<u8>, ureq_proto::Error> {
+    let mut head = Vec::new();
+    for _ in 0..200 {
+        if f.can_proceed() {
+            break;
+        }
+        let n = f.write(out)?;
+        head.extend_from_slice(&out[..n]);
+        if n == 0 {
+            break;
+        }
     }
     Ok(head)
 }
